@@ -66,7 +66,7 @@ func manifestMain(args []string) int {
 			"technique":           ps.Technique,
 		})
 	}
-	var nas []map[string]string
+	nas := []map[string]string{}
 	var naIDs []string
 	for k := range na {
 		naIDs = append(naIDs, k)
